@@ -41,6 +41,8 @@ def do_call(obj, call):
             elif o[0] == "tell":
                 r = obj.tell()
         return r
+    if op == "partial_runs":
+        return obj.partial_runs(call[1], call[2], call[3])
     if op == "range":
         return obj.range(call[1], call[2], call[3])
     if op == "open":
@@ -79,6 +81,13 @@ def main():
     if "raises" in exp:
         print(f"MISMATCH returned normally (expected {exp['raises']})")
         return 1
+    if "bits" in exp:
+        flat = []
+        for t, c in res:
+            flat.extend([t] * max(c, 0))
+        ok = flat == exp["bits"] and all(c >= 1 for _, c in res)
+        print(f"{'MATCH' if ok else 'MISMATCH'} runs {res} expected bits {exp['bits']}")
+        return 0 if ok else 1
     if "spec_classes" in exp:
         # result: (sub-cluster type, count) of a range starting at sc_from
         t, c = res
